@@ -323,7 +323,13 @@ fn constant_fun_result(
                         None,
                     )),
                 };
-                let optimizer = if let Ok(res) = get_optimizer(&call_spec.loc, opts.clone()) {
+                // This program is only run here to obtain a constant.  Compile it
+                // without the optimizing strategy: optimizing it would look for
+                // constant calls in every helper again and recurse forever when a
+                // helper in use contains a call with constant arguments.
+                let nested_opts = opts.set_optimize(false);
+                let optimizer = if let Ok(res) = get_optimizer(&call_spec.loc, nested_opts.clone())
+                {
                     res
                 } else {
                     return None;
@@ -333,7 +339,7 @@ fn constant_fun_result(
                 let mut wrapper =
                     CompileContextWrapper::new(allocator, runner.clone(), &mut symbols, optimizer);
 
-                if let Ok(code) = codegen(&mut wrapper.context, opts.clone(), &to_compile) {
+                if let Ok(code) = codegen(&mut wrapper.context, nested_opts, &to_compile) {
                     code
                 } else {
                     return None;
